@@ -38,26 +38,31 @@ impl<const N: usize> Memo<N> {
     pub fn get(&mut self, a: u64, b: u64, fresh: (u64, u64)) -> (u64, u64) {
         self.get3(a, b, 0, fresh)
     }
+    /// Ackermann constraint form: the result of call i is the fresh symbolic value, constrained (assumed)
+    /// to equal the result of every earlier call with the same key.  Any real function satisfies the
+    /// constraints (choose fresh = f(key)), so nothing is excluded; compared with "first match wins" ite
+    /// chains the SAT back end only sees implications `key_j == key_i ==> v_j == v_i` (measured 10-100x faster).
     #[inline(always)]
     pub fn get3(&mut self, a: u64, b: u64, c: u64, fresh: (u64, u64)) -> (u64, u64) {
         let i = self.calls;
         assert!(i < N, "uf memo table overflow");
-        let mut v = fresh;
-        // reverse order: the earliest matching entry is applied last and wins
-        let mut j = N;
-        while j > 0 {
-            j -= 1;
-            if j < i && self.k0[j] == a && self.k1[j] == b && self.k2[j] == c {
-                v = (self.v0[j], self.v1[j]);
+        let mut j = 0;
+        while j < N && j < i {
+            {
+                let hit = self.k0[j] == a && self.k1[j] == b && self.k2[j] == c;
+                #[cfg(kani)]
+                kani::assume(!hit || (self.v0[j] == fresh.0 && self.v1[j] == fresh.1));
+                let _ = hit;
             }
+            j += 1;
         }
         self.k0[i] = a;
         self.k1[i] = b;
         self.k2[i] = c;
-        self.v0[i] = v.0;
-        self.v1[i] = v.1;
+        self.v0[i] = fresh.0;
+        self.v1[i] = fresh.1;
         self.calls = i + 1;
-        v
+        fresh
     }
 }
 
@@ -152,6 +157,27 @@ macro_rules! uf2 {
             #[cfg(kani)]
             unsafe {
                 let (k0, k1) = (Key::key(x), Key::key(y));
+                let r = $fresh($mode);
+                let v = $tab.get(k0, k1, (r.to_bits() as u64, 0));
+                <$t>::from_bits(v.0 as _)
+            }
+            #[cfg(not(kani))]
+            {
+                let f: fn($t, $t) -> $t = $real;
+                f(x, y)
+            }
+        }
+    };
+}
+macro_rules! uf2c {
+    ($name:ident, $t:ty, $fresh:ident, $tab:ident, $mode:ident, $real:expr, $n:literal) => {
+        pub static mut $tab: Memo<$n> = Memo::new();
+        pub static mut $mode: u8 = ANY;
+        pub fn $name(x: $t, y: $t) -> $t {
+            #[cfg(kani)]
+            unsafe {
+                let (a, b) = (Key::key(x), Key::key(y));
+                let (k0, k1) = if a <= b { (a, b) } else { (b, a) };
                 let r = $fresh($mode);
                 let v = $tab.get(k0, k1, (r.to_bits() as u64, 0));
                 <$t>::from_bits(v.0 as _)
@@ -300,14 +326,16 @@ pub fn rem_f64(a: f64, b: f64) -> f64 {
 }
 
 // ---- uninterpreted primitive arithmetic (forwarding lemmas: "for ANY function in place of + - * / %") ----
-uf2!(uadd_f32, f32, fresh32, UADD32_TAB, UADD32_MODE, |x, y| x + y, 40);
+// add and mul are keyed on the UNORDERED pair of operands (IEEE addition and multiplication are
+// commutative as values; NaN operands share one key)
+uf2c!(uadd_f32, f32, fresh32, UADD32_TAB, UADD32_MODE, |x, y| x + y, 40);
 uf2!(usub_f32, f32, fresh32, USUB32_TAB, USUB32_MODE, |x, y| x - y, 40);
-uf2!(umul_f32, f32, fresh32, UMUL32_TAB, UMUL32_MODE, |x, y| x * y, 40);
+uf2c!(umul_f32, f32, fresh32, UMUL32_TAB, UMUL32_MODE, |x, y| x * y, 40);
 uf2!(udiv_f32, f32, fresh32, UDIV32_TAB, UDIV32_MODE, |x, y| x / y, 40);
 uf2!(urem_f32, f32, fresh32, UREM32_TAB, UREM32_MODE, |x, y| x % y, 40);
-uf2!(uadd_f64, f64, fresh64, UADD64_TAB, UADD64_MODE, |x, y| x + y, 40);
+uf2c!(uadd_f64, f64, fresh64, UADD64_TAB, UADD64_MODE, |x, y| x + y, 40);
 uf2!(usub_f64, f64, fresh64, USUB64_TAB, USUB64_MODE, |x, y| x - y, 40);
-uf2!(umul_f64, f64, fresh64, UMUL64_TAB, UMUL64_MODE, |x, y| x * y, 40);
+uf2c!(umul_f64, f64, fresh64, UMUL64_TAB, UMUL64_MODE, |x, y| x * y, 40);
 uf2!(udiv_f64, f64, fresh64, UDIV64_TAB, UDIV64_MODE, |x, y| x / y, 40);
 uf2!(urem_f64, f64, fresh64, UREM64_TAB, UREM64_MODE, |x, y| x % y, 40);
 macro_rules! assign_form {
@@ -344,3 +372,40 @@ macro_rules! uf3 {
 uf3!(mul_add_f32, f32, fresh32, FMA32_TAB, FMA32_MODE, |x, y, z| x.mul_add(y, z));
 uf3!(mul_add_f64, f64, fresh64, FMA64_TAB, FMA64_MODE, |x, y, z| x.mul_add(y, z));
 uf1!(ufloor_f32, f32, fresh32, UFLOOR32_TAB, UFLOOR32_MODE, |x| x.floor());
+
+// ---- table-free over-approximations ("havoc"): the result is ANY value of the type, independent of
+// the arguments.  Used by the totality obligations (C18), where no functional consistency is needed:
+// whatever holds for every result value holds for the real function.  Outside Kani: the real function.
+macro_rules! hv {
+    ($($name:ident ( $($a:ident),* ) : $t:ty = $real:expr;)*) => {$(
+        pub fn $name($($a: $t),*) -> $t {
+            #[cfg(kani)]
+            { $(let _ = $a;)* kani::any() }
+            #[cfg(not(kani))]
+            { let f: fn($($a: $t),*) -> $t = $real; f($($a),*) }
+        }
+    )*};
+}
+hv! {
+    hv_sqrt_f32(x): f32 = |x| x.sqrt(); hv_sqrt_f64(x): f64 = |x| x.sqrt();
+    hv_sin_f32(x): f32 = |x| x.sin(); hv_sin_f64(x): f64 = |x| x.sin();
+    hv_tan_f32(x): f32 = |x| x.tan(); hv_tan_f64(x): f64 = |x| x.tan();
+    hv_exp_f32(x): f32 = |x| x.exp(); hv_exp_f64(x): f64 = |x| x.exp();
+    hv_atan2_f32(y, x): f32 = |y, x| y.atan2(x); hv_atan2_f64(y, x): f64 = |y, x| y.atan2(x);
+    hv_powf_f32(x, y): f32 = |x, y| x.powf(y); hv_powf_f64(x, y): f64 = |x, y| x.powf(y);
+    hv_div_euclid_f32(x, y): f32 = |x, y| x.div_euclid(y); hv_div_euclid_f64(x, y): f64 = |x, y| x.div_euclid(y);
+    hv_rem_euclid_f32(x, y): f32 = |x, y| x.rem_euclid(y); hv_rem_euclid_f64(x, y): f64 = |x, y| x.rem_euclid(y);
+    hv_mul_add_f32(x, y, z): f32 = |x, y, z| x.mul_add(y, z); hv_mul_add_f64(x, y, z): f64 = |x, y, z| x.mul_add(y, z);
+}
+pub fn hv_sin_cos_f32(x: f32) -> (f32, f32) {
+    #[cfg(kani)]
+    { let _ = x; (kani::any(), kani::any()) }
+    #[cfg(not(kani))]
+    { x.sin_cos() }
+}
+pub fn hv_sin_cos_f64(x: f64) -> (f64, f64) {
+    #[cfg(kani)]
+    { let _ = x; (kani::any(), kani::any()) }
+    #[cfg(not(kani))]
+    { x.sin_cos() }
+}
